@@ -58,8 +58,9 @@ def expr_range(expr):
         elif expr.op == "%":
             assert len(expr.args) == 2
             op, mod = [expr_range(arg) for arg in expr.args]
-            if mod.intervals.length == 1:
-                # Modulo intervals is not supported
+            if mod.intervals.length == 1 and mod.intervals.hull()[0] != 0:
+                # Modulo intervals is not supported; modulo 0 has no value
+                # to bound (and would give an empty set): full domain
                 return op % mod.intervals.hull()[0]
 
         # Operand not handled, return the full domain
